@@ -188,11 +188,10 @@ func (cp *FreeList) ToGC() (string, error) {
 		return workFilePath, nil
 	}
 
-	_, err = cp.Flush()
-	if err != nil {
-		return "", err
-	}
-
+	// Only entries that were already written by Flush are handed over. Entries
+	// still in the pool belong to updates that have not been flushed yet: the
+	// index on disk still refers to their locations, and the records they name
+	// may not be on disk either. They are handed over after the next flush.
 	cp.flushLock.Lock()
 	defer cp.flushLock.Unlock()
 
